@@ -213,6 +213,12 @@ def run(rep: core.Report):
     from rules import shared_freshwrite
 
     shared_freshwrite.run(rep, "R11q", ["phonopy/phonon/dos.py", "phonopy/phonon/tetrahedron_mesh.py"], 3)
+    from rules import shared_readonly
+
+    shared_readonly.run(rep, "R11s", ["phonopy/phonon/dos.py", "phonopy/phonon/tetrahedron_mesh.py"], 5)
+    from rules import shared_bandaxis
+
+    shared_bandaxis.run(rep, "R11r", [("phonopy/phonon/dos.py", "ProjectedDos._run_smearing_method", {"calc": 0}), ("phonopy/phonon/dos.py", "ProjectedDos._run_tetrahedron_method", {})], 2)
     _r11f(rep, tu)
     _r11g(rep, tu, P)
     _r11h(rep, C)
@@ -1213,6 +1219,8 @@ def selftest():
     V = []
     b = lambda name, file, old, new, rule, expect="", **kw: V.append(dict(name=name, kind="break", file=file, old=old, new=new, rule=rule, expect=expect, **kw))
     n = lambda name, file, old, new, **kw: V.append(dict(name=name, kind="neutral", file=file, old=old, new=new, **kw))
+    b("projected tetrahedron DOS contracts the component axis", "phonopy/phonon/dos.py", "            self._projected_dos += np.dot(iw * w, self._eigvecs2[i].T).T", "            self._projected_dos += np.dot(iw * w, self._eigvecs2[i]).T", "R11r", "_run_tetrahedron_method")
+    b("projected smearing DOS selects the band axis", "phonopy/phonon/dos.py", "                    weights, self._eigvecs2[:, j, :] * amplitudes", "                    weights, self._eigvecs2[:, :, j] * amplitudes", "R11r", "_run_smearing_method")
     b("C _J_11 uses the wrong vertex pair", CF, "static double _J_11(const double omega, const double vertices_omegas[4]) {\n    return _f(1, 0, omega, vertices_omegas) / 4;", "static double _J_11(const double omega, const double vertices_omegas[4]) {\n    return _f(0, 1, omega, vertices_omegas) / 4;", "R11a", "_J_11")
     b("Python _I_12 divides by 4", PY, "    def _I_12(self):\n        return self._f(2, 0) / 3", "    def _I_12(self):\n        return self._f(2, 0) / 4", "R11a", "_I_12")
     b("both languages: n_3 with the wrong sign (sum rule only)", CF, "    return (1.0 - _f(0, 3, omega, vertices_omegas) *", "    return (1.0 + _f(0, 3, omega, vertices_omegas) *", "R11b", "n_3", edits=[
